@@ -20,7 +20,13 @@ func (d Directive) BodyError(msg string) *jerr.JApiError {
 }
 
 func (d Directive) BodyErrorIndex(msg string, i uint) *jerr.JApiError {
-	return d.makeError(msg, d.BodyCoords.File(), d.BodyCoords.begin+bytes.Index(i))
+	at := d.BodyCoords.begin + bytes.Index(i)
+	if f := d.BodyCoords.File(); f != nil && int(at) >= f.Content().Len() {
+		// The index cannot belong to this body, it is not even inside the file: the error was raised for text that the
+		// body inherits from another type ("allOf"). The body itself is where that text comes into play.
+		at = d.BodyCoords.begin
+	}
+	return d.makeError(msg, d.BodyCoords.File(), at)
 }
 
 func (d Directive) ParameterError(msg string) *jerr.JApiError {
